@@ -77,6 +77,7 @@ inductive Cmd where
   | start (p : Pid) | exit (val : Int) | prioSet (p : Pid) (v : Int)
   | waitProc (p : Pid) | schedUser (v : Nat) (d pri : Int) | cancelUser (v : Nat) | waitEvent (v : Nat)
   | cancelUserAll
+  | timersClearOf (q : Pid) | timerAddOf (q : Pid) (d sig : Int)
   | acquire (r : Nat) | preempt (r : Nat) | release (r : Nat)
   | poolAcquire (p n : Nat) | poolPreempt (p n : Nat) | poolRelease (p n : Nat)
   | bufGet (b n : Nat) | bufPut (b n : Nat)
